@@ -127,7 +127,7 @@ pub fn plans(ctx: &WorkerCtx) -> Vec<Plan> {
     let q = ctx.quick();
     let fr = [(0.0, 0.0), (0.5, 0.5)];
     let fr4 = [(0.0, 0.0), (0.5, 0.5), (1.0, 0.25), (0.25, 1.0)];
-    let timed: Vec<i64> = if q { vec![0, 3, -2] } else { vec![0, 1, 1000, -2] };
+    let timed: Vec<i64> = if q { vec![0, 2, -1] } else { vec![0, 1, 2, 1000, -2] };
     let g1 = fam::g1(if q { 53 } else { 3 });
     let g2 = fam::g2(if q { 3989 } else { 397 }, 0);
     let mut probes = vec![];
@@ -137,6 +137,7 @@ pub fn plans(ctx: &WorkerCtx) -> Vec<Plan> {
     probes.extend(fam::p_sig());
     let ctr = fam::p_ctr();
     probes.extend(ctr.iter().step_by(if q { 7 } else { 1 }).cloned());
+    probes.extend(fam::p_big());
     let base = Opts { n32: 2, n64: 3, check_clone: true, fresh_every: 64, panic_is_violation: true, ..Default::default() };
     let mut v = vec![];
     let mut lib1 = vec![];
@@ -144,7 +145,7 @@ pub fn plans(ctx: &WorkerCtx) -> Vec<Plan> {
     lib1.extend(g2.iter().cloned());
     lib1.extend(probes.iter().cloned());
     let one: Vec<Cfg> = if q { fam::singles(&lib1, &fr).into_iter().enumerate().filter(|(i, _)| i % 2 == (i / 2) % 2).map(|x| x.1).collect() } else { fam::singles(&lib1, &fr) };
-    v.push(Plan { name: "one machine: G1+G2+probes, singles+eps+long batches".into(), cfgs: one, alpha_for: alpha_for(false, if q { vec![0, 3] } else { timed.clone() }), opts: Opts { depth: if q { 3 } else { 5 }, ..base.clone() } });
+    v.push(Plan { name: "one machine: G1+G2+probes, singles+eps+long batches".into(), cfgs: one, alpha_for: alpha_for(false, if q { vec![0, 2] } else { timed.clone() }), opts: Opts { depth: if q { 3 } else { 5 }, ..base.clone() } });
     let mut lib2 = vec![];
     lib2.extend(g2.iter().cloned());
     lib2.extend(probes.iter().cloned());
